@@ -54,8 +54,10 @@ def plan(tier):
   n = 95 if tier == 'quick' else 9000
   shards = [{'name': f's{i}', 'kind': 'main', 'n': n, 'start': i * n} for i in range(14)]
   nc = 60 if tier == 'quick' else 6000
-  shards += [{'name': f'cyc{i}', 'kind': 'cycle', 'n': nc, 'start': i * nc, 'timeout': 600}
-             for i in range(2)]
+  # (thorough: four shards with a generous watchdog - a timeout is inconclusive, never a verdict)
+  ncs = 2 if tier == 'quick' else 4
+  shards += [{'name': f'cyc{i}', 'kind': 'cycle', 'n': nc * 2 // ncs, 'start': i * (nc * 2 // ncs),
+              'timeout': 600 if tier == 'quick' else 3000} for i in range(ncs)]
   ni = 1500 if tier == 'quick' else 60000
   shards += [{'name': f'idreuse{i}', 'kind': 'idreuse', 'n': ni, 'start': i * ni} for i in range(2)]
   return shards
